@@ -127,7 +127,8 @@ fn c06_fork_scripts_match_reference() {
             let r = match std::panic::catch_unwind(|| eval_from_bytes(s, ver)) { Ok(r) => r, Err(_) => { fail(suite, "C14:evaluation_never_panics", &format!("{} {}", coin, hex(s)), "panic", "a result"); continue; } };
             let gt = format!("{}", r.pattern);
             let inp = format!("{} script={}", coin, hex(s));
-            if !check(gt == wt, suite, "C06:typed_by_template", &inp, &gt, &wt) { continue; }
+            let c = if wt == "OpReturn" || gt == "OpReturn" { "C06,C16:typed_by_template" } else { "C06:typed_by_template" };
+            if !check(gt == wt, suite, c, &inp, &gt, &wt) { continue; }
             check(r.address == wa, suite, "C06:address_is_base58check_of_version_and_payload", &inp, &format!("{:?}", r.address), &format!("{:?}", wa));
             if let Some(p) = wp { let gp = match &r.pattern { ScriptPattern::OpReturn(x) => x.clone(), _ => "<none>".into() };
                 check(gp == p, suite, "C16:fork_payload_is_the_pushed_data", &inp, &format!("{:?}", gp), &format!("{:?}", p)); }
@@ -227,7 +228,8 @@ fn c05_bitcoin_scripts_match_reference() {
             let r = match std::panic::catch_unwind(|| eval_from_bytes(s, ver)) { Ok(r) => r, Err(_) => { fail(suite, "C14:evaluation_never_panics", &format!("ver={:#x} {}", ver, hex(s)), "panic", "a result"); continue; } };
             let gt = format!("{}", r.pattern);
             let inp = format!("version_id={:#x} script={}", ver, if s.len() > 200 { format!("{}..({} bytes)", hex(&s[..40]), s.len()) } else { hex(s) });
-            let c = if wt == "NotRecognised" && gt == "Pay2MultiSig" && multisig_with_non_numeric_n(s) { "C05:script_type_equals_reference/multisig_with_non_numeric_n" } else { "C05:script_type_equals_reference" };
+            let c = if wt == "NotRecognised" && gt == "Pay2MultiSig" && multisig_with_non_numeric_n(s) { "C05:script_type_equals_reference/multisig_with_non_numeric_n" }
+                    else if wt == "OpReturn" || gt == "OpReturn" { "C05,C16:script_type_equals_reference" } else { "C05:script_type_equals_reference" };
             if !check(gt == wt, suite, c, &inp, &gt, &wt) { continue; }
             check(r.address == wa, suite, "C05:address_equals_reference", &inp, &format!("{:?}", r.address), &format!("{:?}", wa));
             if let Some(a) = &r.address { let ok = if ver == 0 { a.starts_with('1') || a.starts_with('3') || a.starts_with("bc1") } else { a.starts_with('m') || a.starts_with('n') || a.starts_with('2') || a.starts_with("tb1") };
